@@ -52,6 +52,12 @@ KINDS = {
     # (interned symbols, bindings, slots) must be garbage too
     "eval-fresh-names": "(eval (list (list 'lambda (list (string->symbol (string-append \"fv\" (number->string i)))) "
                         "(string->symbol (string-append \"fv\" (number->string i)))) i))",
+    # ... also when the fresh local name is the TARGET OF AN ASSIGNMENT (set!, and what letrec / named let expand to)
+    "eval-fresh-set-names": "(eval (list (list 'lambda (list (string->symbol (string-append \"fs\" (number->string i)))) "
+                            "(list 'set! (string->symbol (string-append \"fs\" (number->string i))) 1) "
+                            "(string->symbol (string-append \"fs\" (number->string i)))) i))",
+    "eval-fresh-letrec-names": "(eval (list 'letrec (list (list (string->symbol (string-append \"fl\" (number->string i))) "
+                               "(list 'lambda '() i))) (list (string->symbol (string-append \"fl\" (number->string i))))))",
     "symbols": "(string->symbol (string-append \"gs\" (number->string i)))",
     "bignums": "(* 123456789012345678901234567890 (+ i 1))",
     "mixed": "(list (make-vector 2 i) (number->string i) (lambda () i) (string->symbol (number->string i)))",
@@ -68,7 +74,8 @@ def loop_forms(kind, live, n):
 def toplevel_forms(live, n):
     setup = "(define live (let mk ((i 0) (acc '())) (if (= i %d) acc (mk (+ i 1) (cons (vector i) acc)))))" % live
     # every form uses its own local variable names
-    return [setup] + ["((lambda (x%d . r%d) (list x%d r%d %d)) %d)" % (i, i, i, i, i, i) for i in range(n)]
+    return [setup] + ["((lambda (x%d . r%d) (set! x%d (+ x%d 1)) (let loop%d ((j%d 0)) (if (< j%d 1) (loop%d (+ j%d 1)) (list x%d r%d %d)))) %d)"
+                      % (i, i, i, i, i, i, i, i, i, i, i, i, i) for i in range(n)]
 
 
 def stats_case(chunk, forms):
